@@ -337,6 +337,9 @@ func (x *Run) invoke(fr *Frame, st *State, recv Val, cc *ssa.CallCommon, args []
 	declaredInFrp := m.Pkg() != nil && strings.HasPrefix(m.Pkg().Path(), frpPrefix)
 	if iface, ok := types.Unalias(cc.Value.Type()).(*types.Named); ok && iface.Obj().Pkg() != nil {
 		declaredInFrp = strings.HasPrefix(iface.Obj().Pkg().Path(), frpPrefix)
+		if x.spec.effectFree[iface.Obj().Pkg().Path()+"."+iface.Obj().Name()] {
+			declaredInFrp = false
+		}
 	}
 	if declaredInFrp {
 		return x.dynamicUnknown(fr, st, "invoke "+full, cc.Signature(), site)
@@ -447,9 +450,10 @@ func (x *Run) builtin(fr *Frame, st *State, b *ssa.Builtin, cc *ssa.CallCommon, 
 		return ret(Val{T: "unit", S: SUnit})
 	case "close":
 		ch := args[0]
-		closed := sel(x.arr(st, x.chClosedArr()), ch.T)
+		cca := x.chClosedArr(cc.Args[0].Type())
+		closed := sel(x.arr(st, cca), ch.T)
 		x.mayPanic(fr, st, and(not(closed), not(eq(ch.T, "0"))), "close-of-closed", site, &outs)
-		x.setArr(st, x.chClosedArr(), store(x.arr(st, x.chClosedArr()), ch.T, "true"))
+		x.setArr(st, cca, store(x.arr(st, cca), ch.T, "true"))
 		st.events = append(st.events, Event{Name: "close", Args: []Val{ch}})
 		return ret(Val{T: "unit", S: SUnit})
 	case "recover":
